@@ -147,14 +147,14 @@ pub struct Plan {
 
 #[derive(Clone, Debug, Serialize, Deserialize)]
 pub enum Op {
-    /// `send_request` / `send_request_with_addresses` from node n. `to`: index of a node (may be n
-    /// itself) or >= nodes for a peer that is no node. `addr`: 0 none, 1 the target's listen address
-    /// (for a non-node: an address nobody listens on).
+    /// `send_request_with_addresses` from node n. `to`: 0 next node, 1 the node after, 2 n itself,
+    /// 3 a peer that is no node. `addr`: 0 none, 1 the target's listen address (for a non-node: an
+    /// address nobody listens on).
     Send { n: u8, to: u8, addr: u8, plan: Plan },
     /// `Swarm::add_peer_address(to, listen address of to)` on node n
     AddAddr { n: u8, to: u8 },
-    /// explicit `Swarm::dial` from n to node `to`, transport + upgrade resolved at once
-    Connect { n: u8, to: u8 },
+    /// explicit `Swarm::dial` from n to another node, transport + upgrade resolved at once
+    Connect { n: u8, to: u8, settle: bool },
     /// resolve an open transport dial of node n: how 0 = ok (remote node sees the inbound
     /// connection; `both` = its upgrade finishes at once), 1 = error, 2 = ok but authenticated as a
     /// different peer
@@ -169,8 +169,9 @@ pub enum Op {
     /// application answers / drops a held response channel
     Respond { n: u8, pick: u16 },
     DropChan { n: u8, pick: u16 },
-    /// poll the picked runnable things (connection tasks and woken swarms), one per entry
-    Step { picks: Vec<u16> },
+    /// poll the picked runnable things (connection tasks and, unless `tasks_only`, woken swarms),
+    /// one per entry
+    Step { picks: Vec<u16>, tasks_only: bool },
     /// let real time pass without polling anything
     Sleep { ms: u8 },
     Settle,
@@ -474,9 +475,9 @@ impl World {
     }
 
     /// everything that could be polled now: connection tasks first, then woken swarms
-    fn step(&mut self, p: u16) -> bool {
+    fn step(&mut self, p: u16, tasks_only: bool) -> bool {
         let tasks = self.exec.runnable();
-        let swarms: Vec<usize> = (0..self.nodes.len()).filter(|i| self.woken(*i)).collect();
+        let swarms: Vec<usize> = (0..self.nodes.len()).filter(|i| !tasks_only && self.woken(*i)).collect();
         let total = tasks.len() + swarms.len();
         if total == 0 {
             return false;
@@ -569,15 +570,24 @@ impl World {
         }
     }
 
-    fn target_peer(&self, to: u8) -> (PeerId, Option<usize>) {
+    /// `to`: 0 = the next node, 1 = the one after (the next one again in a 2-node world), 2 = the node
+    /// itself, 3 = a peer that is no node
+    fn target_peer(&self, from: usize, to: u8) -> (PeerId, Option<usize>) {
         let nn = self.nodes.len();
-        // `to` in 0..=nn: nn = a peer that is not a node
-        let t = to as usize % (nn + 1);
-        if t < nn {
-            (self.nodes[t].peer, Some(t))
-        } else {
-            (gen::peer(6), None)
-        }
+        let t = match to % 4 {
+            0 => (from + 1) % nn,
+            1 => {
+                let t = (from + 2) % nn;
+                if t == from {
+                    (from + 1) % nn
+                } else {
+                    t
+                }
+            }
+            2 => from,
+            _ => return (gen::peer(6), None),
+        };
+        (self.nodes[t].peer, Some(t))
     }
 
     fn exec_op(&mut self, op: &Op) {
@@ -585,7 +595,7 @@ impl World {
         match op {
             Op::Send { n, to, addr, plan } => {
                 let i = *n as usize % nn;
-                let (peer, node) = self.target_peer(*to);
+                let (peer, node) = self.target_peer(i, *to);
                 self.tag = self.tag.wrapping_add(1);
                 let msg = Msg(vec![plan.wreq, plan.rreq, plan.wresp, plan.rresp, plan.app, (self.tag & 0xff) as u8, (self.tag >> 8) as u8]);
                 let addrs = if addr % 2 == 1 {
@@ -613,16 +623,16 @@ impl World {
             }
             Op::AddAddr { n, to } => {
                 let i = *n as usize % nn;
-                let j = *to as usize % nn;
+                let j = (i + 1 + *to as usize % (nn - 1)) % nn;
                 if i != j {
                     let p = self.nodes[j].peer;
                     self.nodes[i].swarm.add_peer_address(p, listen_addr(j));
                     self.nodes[i].flag.0.store(true, Ordering::SeqCst);
                 }
             }
-            Op::Connect { n, to } => {
+            Op::Connect { n, to, settle } => {
                 let i = *n as usize % nn;
-                let j = *to as usize % nn;
+                let j = (i + 1 + *to as usize % (nn - 1)) % nn;
                 if i == j {
                     return;
                 }
@@ -635,6 +645,9 @@ impl World {
                 let new: Vec<usize> = self.open_dials(i).into_iter().filter(|d| !before.contains(d)).collect();
                 if let Some(d) = new.first() {
                     self.resolve_dial(i, *d, 0, true);
+                }
+                if *settle {
+                    self.settle();
                 }
             }
             Op::ResolveDial { n, pick: p, how, both } => {
@@ -666,7 +679,7 @@ impl World {
             }
             Op::Disconnect { n, to } => {
                 let i = *n as usize % nn;
-                let (peer, _) = self.target_peer(*to);
+                let (peer, _) = self.target_peer(i, *to);
                 let _ = self.nodes[i].swarm.disconnect_peer_id(peer);
                 self.nodes[i].flag.0.store(true, Ordering::SeqCst);
             }
@@ -725,9 +738,9 @@ impl World {
                 }
                 self.label("late_app_decision");
             }
-            Op::Step { picks } => {
+            Op::Step { picks, tasks_only } => {
                 for p in picks {
-                    if !self.step(*p) || self.fail.is_some() {
+                    if !self.step(*p, *tasks_only) || self.fail.is_some() {
                         break;
                     }
                 }
@@ -794,6 +807,14 @@ impl World {
         for i in 0..self.nodes.len() {
             let outs: Vec<(rr::OutboundRequestId, PeerId)> = self.nodes[i].out.iter().filter(|(_, r)| r.terminals.is_empty()).map(|(k, r)| (*k, r.peer)).collect();
             for (id, peer) in outs {
+                let sw = &self.nodes[i].swarm;
+                if sw.behaviour().is_pending_outbound(&peer, &id) && !sw.behaviour().is_connected(&peer) && !sw.is_connected(&peer) && sw.network_info().connection_counters().num_pending_outgoing() == 0 {
+                    self.fail(
+                        "C45:outbound-request-waits-for-a-connection-nobody-is-dialing",
+                        json!({"node": i, "request_id": id.to_string(), "why": "the request is still queued for a not-connected peer, the swarm has no pending outgoing connection and everything is quiescent: no Response/OutboundFailure can arrive"}),
+                    );
+                    return None;
+                }
                 if !self.nodes[i].swarm.behaviour().is_pending_outbound(&peer, &id) {
                     self.fail(
                         "C45:outbound-request-forgotten-without-outcome",
@@ -891,20 +912,24 @@ fn plan() -> impl Strategy<Value = Plan> {
         .prop_map(|(wreq, rreq, wresp, rresp, app)| Plan { wreq, rreq, wresp, rresp, app })
 }
 
+fn target() -> impl Strategy<Value = u8> {
+    prop_oneof![14 => Just(0u8), 6 => Just(1u8), 1 => Just(2u8), 1 => Just(3u8)]
+}
+
 fn op() -> impl Strategy<Value = Op> {
     prop_oneof![
-        30 => (0u8..3, 0u8..4, prop_oneof![2 => Just(0u8), 3 => Just(1u8)], plan()).prop_map(|(n, to, addr, plan)| Op::Send { n, to, addr, plan }),
-        2 => (0u8..3, 0u8..3).prop_map(|(n, to)| Op::AddAddr { n, to }),
-        8 => (0u8..3, 0u8..3).prop_map(|(n, to)| Op::Connect { n, to }),
+        30 => (0u8..3, target(), prop_oneof![2 => Just(0u8), 3 => Just(1u8)], plan()).prop_map(|(n, to, addr, plan)| Op::Send { n, to, addr, plan }),
+        2 => (0u8..3, 0u8..2).prop_map(|(n, to)| Op::AddAddr { n, to }),
+        9 => (0u8..3, 0u8..2, prop::bool::weighted(0.7)).prop_map(|(n, to, settle)| Op::Connect { n, to, settle }),
         8 => (0u8..3, any::<u16>(), prop_oneof![6 => Just(0u8), 2 => Just(1u8), 1 => Just(2u8)], prop::bool::weighted(0.8)).prop_map(|(n, pick, how, both)| Op::ResolveDial { n, pick, how, both }),
         3 => (any::<u16>(), prop::bool::weighted(0.8)).prop_map(|(pick, ok)| Op::ResolveIn { pick, ok }),
         5 => (0u8..3, any::<u16>()).prop_map(|(n, pick)| Op::Close { n, pick }),
-        2 => (0u8..3, 0u8..4).prop_map(|(n, to)| Op::Disconnect { n, to }),
+        2 => (0u8..3, target()).prop_map(|(n, to)| Op::Disconnect { n, to }),
         2 => (any::<u16>(), any::<bool>()).prop_map(|(pick, side)| Op::RemoteClose { pick, side }),
         2 => (any::<u16>(), any::<bool>()).prop_map(|(pick, side)| Op::Fault { pick, side }),
         4 => (0u8..3, any::<u16>()).prop_map(|(n, pick)| Op::Respond { n, pick }),
         2 => (0u8..3, any::<u16>()).prop_map(|(n, pick)| Op::DropChan { n, pick }),
-        22 => prop::collection::vec(any::<u16>(), 1..24).prop_map(|picks| Op::Step { picks }),
+        22 => (prop::collection::vec(any::<u16>(), 1..24), prop::bool::weighted(0.25)).prop_map(|(picks, tasks_only)| Op::Step { picks, tasks_only }),
         3 => prop_oneof![3 => 1u8..20, 2 => 20u8..60].prop_map(|ms| Op::Sleep { ms }),
         8 => Just(Op::Settle),
     ]
@@ -913,7 +938,7 @@ fn op() -> impl Strategy<Value = Op> {
 fn case_strategy() -> BoxedStrategy<Case> {
     (
         2u8..=3,
-        1u8..=4,
+        1u8..=6,
         1u8..=4,
         1u8..=7,
         prop::collection::vec(prop_oneof![10 => Just(0u8), 1 => Just(1u8), 1 => Just(2u8)], 3),
@@ -923,15 +948,80 @@ fn case_strategy() -> BoxedStrategy<Case> {
         .boxed()
 }
 
+/// Cases aimed at timing races inside one connection: a connection is up, a burst of requests is
+/// sent, the tasks are polled a generated number of times, then real time passes (around one
+/// request timeout) while nothing is polled, then everything runs again.
+fn starve_strategy() -> BoxedStrategy<Case> {
+    let burst = (
+        prop::collection::vec((0u8..2, plan(), prop::bool::weighted(0.1)), 1..8),
+        // the sender's swarm hands the requests to its connection task, then mostly tasks run
+        (0usize..4, prop::collection::vec(any::<u16>(), 0..60), prop::bool::weighted(0.6)),
+        prop_oneof![1 => 0u8..30, 3 => 35u8..60],
+        (prop::collection::vec(any::<u16>(), 0..12), any::<bool>()),
+        prop_oneof![3 => Just(0u8), 1 => 35u8..50],
+    );
+    (
+        prop_oneof![1 => 1u8..=3, 2 => 4u8..=6],
+        1u8..=4,
+        prop_oneof![3 => 1u8..=2, 1 => 3u8..=7],
+        any::<bool>(),
+        prop::collection::vec(burst, 1..4),
+        prop::option::weighted(0.3, (0u8..2, any::<u16>())),
+    )
+        .prop_map(|(max_streams, notify_buf, event_buf, second_conn, bursts, close)| {
+            let mut ops = vec![Op::Connect { n: 0, to: 0, settle: true }];
+            if second_conn {
+                ops.push(Op::Connect { n: 1, to: 0, settle: true });
+            }
+            for (sends, (swarm_polls, picks, tasks_only), ms, (picks2, tasks_only2), ms2) in bursts {
+                for (n, plan, settle_between) in sends {
+                    ops.push(Op::Send { n, to: 0, addr: 0, plan });
+                    if settle_between {
+                        ops.push(Op::Settle);
+                    }
+                }
+                if swarm_polls > 0 {
+                    // picks of 0xffff select the last runnable thing: a woken swarm if there is one
+                    ops.push(Op::Step { picks: vec![0xffff; swarm_polls * 4], tasks_only: false });
+                }
+                ops.push(Op::Step { picks, tasks_only });
+                ops.push(Op::Sleep { ms });
+                ops.push(Op::Step { picks: picks2, tasks_only: tasks_only2 });
+                if ms2 > 0 {
+                    ops.push(Op::Sleep { ms: ms2 });
+                }
+                ops.push(Op::Settle);
+            }
+            if let Some((n, pick)) = close {
+                ops.push(Op::Close { n, pick });
+            }
+            Case { nodes: 2, max_streams, notify_buf, event_buf, support: vec![0, 0, 0], ops }
+        })
+        .boxed()
+}
+
 pub fn run(ctx: &mut Ctx) {
     ctx.assume("transport, muxer and scheduling are simulated (simswarm::net, vcore::simexec): connection tasks are polled only when the harness says so; peers are real Swarms with request_response::Behaviour over a scripted codec");
     ctx.assume(&format!("request_timeout = {TIMEOUT_MS} ms of real time (futures_timer); the wind-down waits up to {WINDDOWN_MS} ms for timer-driven outcomes and reports Inconclusive, never a violation, unless a time-independent witness (behaviour getters is_pending_outbound / is_pending_inbound, ResponseChannel::is_open, connection still established) shows that the outcome cannot arrive"));
     ctx.assume("idle_connection_timeout = 1 h, so connections only close when the case closes them; the substream upgrade timeout keeps its default (10 s) and never fires");
     ctx.check::<Case>(
         "world",
-        "programs of 4..48 ops over 2..3 swarms: send_request (connected / not connected, with / without address, to self, to an unknown peer), codec fault plan per request (fail/stall in each of the 4 codec methods), application responds / drops / holds the channel, dial resolution ok / error / wrong peer, inbound upgrade ok / error, close_connection, disconnect_peer_id, remote close, muxer fault, real-time sleeps, generated task/swarm poll schedules, max_concurrent_streams 1..4, small handler buffers; non-trivial = >=1 OutboundFailure and >=1 InboundFailure (of a delivered request) and >=1 ConnectionClosed failure (a connection closed with requests in flight); distinct by case hash",
+        "programs of 4..48 ops over 2..3 swarms: send_request (connected / not connected, with / without address, to self, to an unknown peer), codec fault plan per request (fail/stall in each of the 4 codec methods), application responds / drops / holds the channel, dial resolution ok / error / wrong peer, inbound upgrade ok / error, close_connection, disconnect_peer_id, remote close, muxer fault, real-time sleeps, generated task/swarm poll schedules, max_concurrent_streams 1..6, small handler buffers; non-trivial = >=1 OutboundFailure and >=1 InboundFailure (of a delivered request) and >=1 ConnectionClosed failure (a connection closed with requests in flight); distinct by case hash",
         ctx.n(3000, 100_000),
         &case_strategy,
         &check,
+    );
+    ctx.check::<Case>(
+        "starve",
+        "two connected swarms; 1..3 bursts of 1..7 requests with generated fault plans, a generated number of task/swarm polls (often connection tasks only, i.e. the swarms are starved and the connection event channel, capacity 1..7, fills up), a real-time pause of 0..60 ms (request timeout 40 ms) during which nothing is polled, more polls, optional second pause, settle; optional close at the end; non-trivial = >=1 OutboundFailure and >=1 InboundFailure of a delivered request; distinct by case hash",
+        ctx.n(1500, 40_000),
+        &starve_strategy,
+        &|c| match check(c) {
+            Outcome::Pass { labels, .. } => {
+                let nt = labels.contains(&"failure_on_both_sides");
+                Outcome::Pass { nontrivial: nt, labels }
+            }
+            o => o,
+        },
     );
 }
